@@ -1,9 +1,9 @@
-"""Minimal proxy-based symbolic executor (probe)."""
+"""Minimal proxy-based symbolic executor (probe v2: realised values recorded in the decision trail)."""
 import z3, time
 class Abort(BaseException): pass
 class Engine:
     def __init__(self):
-        self.solver = z3.Solver(); self.prefix=[]; self.pos=0; self.trail=[]; self.queries=0; self.qtime=0.0; self.nvars=0
+        self.solver = z3.Solver(); self.prefix=[]; self.pos=0; self.trail=[]; self.queries=0; self.qtime=0.0; self.nvars=0; self.realisations=0
     def check(self,*extra):
         t=time.time(); r=self.solver.check(*extra); self.qtime+=time.time()-t; self.queries+=1; return r
     def fresh_int(self,name,lo=None,hi=None):
@@ -11,42 +11,40 @@ class Engine:
         if lo is not None: self.solver.add(v>=lo)
         if hi is not None: self.solver.add(v<=hi)
         return SymInt(self,v)
-    def branch(self,cond):
-        # decide truth of z3 Bool cond
+    def branch(self,cond,val=None):
         if self.pos < len(self.prefix):
-            d,done=self.prefix[self.pos]; self.pos+=1
-            self.solver.add(cond if d else z3.Not(cond)); self.trail.append((d,done)); return d
+            d,done,_=self.prefix[self.pos]; self.pos+=1
+            self.solver.add(cond if d else z3.Not(cond)); self.trail.append((d,done,val)); return d
         can_t = self.check(cond)==z3.sat
         can_f = self.check(z3.Not(cond))==z3.sat
-        if can_t and can_f:
-            d=True; self.trail.append((d,False))  # other side pending
-        elif can_t: d=True; self.trail.append((d,True))
-        elif can_f: d=False; self.trail.append((d,True))
+        if can_t and can_f: d=True; self.trail.append((d,False,val))
+        elif can_t: d=True; self.trail.append((d,True,val))
+        elif can_f: d=False; self.trail.append((d,True,val))
         else: raise Abort()
         self.pos+=1
         self.solver.add(cond if d else z3.Not(cond)); return d
     def realize(self,expr):
-        # fork over concrete values
+        self.realisations+=1
         while True:
-            assert self.check()==z3.sat
-            val=self.solver.model().eval(expr,model_completion=True)
-            if self.branch(expr==val): return val.as_long()
+            if self.pos < len(self.prefix): val=self.prefix[self.pos][2]     # replay: same value as first time
+            else:
+                if self.check()!=z3.sat: raise Abort()
+                val=self.solver.model().eval(expr,model_completion=True).as_long()
+            if self.branch(expr==val,val): return val
     def prove(self,cond,msg=""):
         if self.check(z3.Not(cond))==z3.sat:
             raise AssertionError(("CEX",msg,self.solver.model()))
-def explore(fn, maxpaths=100000):
-    prefix=[]; paths=0; stats=dict(queries=0,qtime=0.0)
+def explore(fn, maxpaths=1000000):
+    prefix=[]; paths=0; stats=dict(queries=0,qtime=0.0,realisations=0)
     while True:
         e=Engine(); e.prefix=list(prefix)
         try: fn(e)
         except Abort: pass
-        paths+=1; stats['queries']+=e.queries; stats['qtime']+=e.qtime
+        paths+=1; stats['queries']+=e.queries; stats['qtime']+=e.qtime; stats['realisations']+=e.realisations
         tr=e.trail
-        # backtrack: find last decision with pending other side
         while tr and tr[-1][1]: tr.pop()
         if not tr: break
-        d,_=tr.pop(); prefix=list(tr)+[(not d,True)]
-        # mark flipped as done: represent by storing in prefix; replays mark done=True
+        d,_,val=tr.pop(); prefix=list(tr)+[(not d,True,val)]
         if paths>=maxpaths: raise RuntimeError("too many paths")
     return paths,stats
 def lift(e,x): return x.z if isinstance(x,SymInt) else x
@@ -72,3 +70,4 @@ class SymInt:
     def __index__(self): return self.e.realize(self.z)
     __int__=__index__
     def __hash__(self): return hash(self.__index__())
+    def __deepcopy__(self,memo): return self
